@@ -145,16 +145,52 @@ func postStr(c *ex.Ctx, r renamer, s ast.Stmt) string {
 	return c.Src(s)
 }
 
+// required lists every definition the Lean side refers to, with its type. gen always writes the
+// file: what could not be recognised in the source gets the value "?unrecognised" (or, for
+// wrapStoresWidth, the current behaviour), the error is recorded in extractErrors and the
+// extractor still exits non-zero. The facts_* theorems then fail, but the model and the driver
+// keep building, so the correspondence run and its oracle still look for a concrete failing input.
+var required = []struct{ name, typ string }{
+	{"winSetCellReject", "L"}, {"winSetCellCalls", "L"}, {"winSetStyleReject", "L"}, {"winSetStyleCalls", "L"},
+	{"scrSetCellReject", "L"}, {"scrSetCellTail", "L"}, {"scrSetStyleReject", "L"}, {"scrSetStyleTail", "L"},
+	{"newLiteral", "L"}, {"newSteps", "L"}, {"tabLoop", "L"}, {"tabCell", "S"},
+	{"remeasurePrint", "L"}, {"condsPrint", "L"}, {"remeasurePrintTruncate", "L"}, {"condsPrintTruncate", "L"},
+	{"remeasurePrintln", "L"}, {"condsPrintln", "L"}, {"remeasureWrap", "L"}, {"condsWrap", "L"},
+	{"wrapStoresWidth", "B"},
+}
+
 func gen(c *ex.Ctx) {
+	var sb strings.Builder
+	sb.WriteString("namespace VaxisModel.Gen.WindowFacts\n\n")
+	genBody(c, &sb)
+	for _, r := range required {
+		if strings.Contains(sb.String(), "\ndef "+r.name+" :") {
+			continue
+		}
+		c.Fail("no value extracted for %s", r.name)
+		switch r.typ {
+		case "L":
+			fmt.Fprintf(&sb, "def %s : List String := [\"?unrecognised\"]\n", r.name)
+		case "S":
+			fmt.Fprintf(&sb, "def %s : String := \"?unrecognised\"\n", r.name)
+		case "B":
+			fmt.Fprintf(&sb, "def %s : Bool := true\n", r.name)
+		}
+	}
+	fmt.Fprintf(&sb, "\n/-- What the extractor could not recognise (empty when the source has the expected shape). -/\ndef extractErrors : List String := %s\n\n", leanList(c.Errs))
+	sb.WriteString("end VaxisModel.Gen.WindowFacts\n")
+	errs := c.Errs
+	c.Write("WindowFacts.lean", sb.String())
+	_ = errs
+}
+
+func genBody(c *ex.Ctx, sbp *strings.Builder) {
 	win := c.Parse("window.go")
 	scr := c.Parse("screen.go")
 	chr := c.Parse("character.go")
 	if win == nil || scr == nil || chr == nil {
 		return
 	}
-	var sb strings.Builder
-	sb.WriteString("namespace VaxisModel.Gen.WindowFacts\n\n")
-
 	// 1. guards + what follows them
 	for _, it := range []struct {
 		f          *ast.File
@@ -165,15 +201,15 @@ func gen(c *ex.Ctx) {
 		fd := ex.FindFunc(it.f, it.recv, it.name)
 		if fd == nil {
 			c.Fail("%s.%s not found", it.recv, it.name)
-			return
+			continue
 		}
 		r := roles(fd)
 		atoms, tail := guardsAndTail(c, r, fd)
-		fmt.Fprintf(&sb, "/-- %s: disjuncts of the leading `if … { return }` guards (sorted). -/\ndef %sReject : List String := %s\n", c.Pos(fd), it.lean, leanList(atoms))
+		fmt.Fprintf(sbp, "/-- %s: disjuncts of the leading `if … { return }` guards (sorted). -/\ndef %sReject : List String := %s\n", c.Pos(fd), it.lean, leanList(atoms))
 		if it.recv == "Window" {
 			// switch win.Parent { case nil: <call> default: <call> }
 			cs := calls(c, r, tail)
-			fmt.Fprintf(&sb, "/-- calls after the guards, in source order. -/\ndef %sCalls : List String := %s\n\n", it.lean, leanList(cs))
+			fmt.Fprintf(sbp, "/-- calls after the guards, in source order. -/\ndef %sCalls : List String := %s\n\n", it.lean, leanList(cs))
 			if len(tail) != 1 {
 				c.Fail("%s: expected exactly one statement after the guards", c.Pos(fd))
 			} else if sw, ok := tail[0].(*ast.SwitchStmt); !ok || norm(c, r, sw.Tag) != "R.Parent" {
@@ -189,7 +225,7 @@ func gen(c *ex.Ctx) {
 				}
 				ts = append(ts, norm(c, r, as.Lhs[0])+as.Tok.String()+norm(c, r, as.Rhs[0]))
 			}
-			fmt.Fprintf(&sb, "/-- statements after the guards. -/\ndef %sTail : List String := %s\n\n", it.lean, leanList(ts))
+			fmt.Fprintf(sbp, "/-- statements after the guards. -/\ndef %sTail : List String := %s\n\n", it.lean, leanList(ts))
 		}
 	}
 
@@ -262,8 +298,8 @@ func gen(c *ex.Ctx) {
 			}
 		}
 		sort.Strings(lits)
-		fmt.Fprintf(&sb, "/-- Window.New: the struct literal (sorted fields). -/\ndef newLiteral : List String := %s\n", leanList(lits))
-		fmt.Fprintf(&sb, "/-- Window.New: the statements after the literal. -/\ndef newSteps : List String := %s\n\n", leanList(sws))
+		fmt.Fprintf(sbp, "/-- Window.New: the struct literal (sorted fields). -/\ndef newLiteral : List String := %s\n", leanList(lits))
+		fmt.Fprintf(sbp, "/-- Window.New: the statements after the literal. -/\ndef newSteps : List String := %s\n\n", leanList(sws))
 	}
 
 	// 3. Characters: the TAB branch
@@ -299,7 +335,7 @@ func gen(c *ex.Ctx) {
 				if id, ok := as.Lhs[0].(*ast.Ident); ok {
 					r[id.Name] = "I"
 				}
-				fmt.Fprintf(&sb, "/-- %s: the loop of the TAB branch of Characters. -/\ndef tabLoop : List String := %s\n", c.Pos(is),
+				fmt.Fprintf(sbp, "/-- %s: the loop of the TAB branch of Characters. -/\ndef tabLoop : List String := %s\n", c.Pos(is),
 					leanList([]string{norm(c, r, as.Lhs[0]) + as.Tok.String() + norm(c, r, as.Rhs[0]), norm(c, r, fs.Cond), postStr(c, r, fs.Post)}))
 			} else {
 				c.Fail("%s: TAB loop init", c.Pos(fs))
@@ -319,7 +355,7 @@ func gen(c *ex.Ctx) {
 				c.Fail("%s: TAB loop body", c.Pos(fs))
 				return false
 			}
-			fmt.Fprintf(&sb, "def tabCell : String := %s\n\n", ex.LeanStr(c.Src(ce.Args[1])))
+			fmt.Fprintf(sbp, "def tabCell : String := %s\n\n", ex.LeanStr(c.Src(ce.Args[1])))
 			found = true
 			return false
 		})
@@ -382,8 +418,8 @@ func gen(c *ex.Ctx) {
 			}
 			return true
 		})
-		fmt.Fprintf(&sb, "/-- %s: re-measure branches. -/\ndef remeasure%s : List String := %s\n", c.Pos(fd), name, leanList(rem))
-		fmt.Fprintf(&sb, "/-- %s: the other conditions, in source order. -/\ndef conds%s : List String := %s\n\n", c.Pos(fd), name, leanList(conds))
+		fmt.Fprintf(sbp, "/-- %s: re-measure branches. -/\ndef remeasure%s : List String := %s\n", c.Pos(fd), name, leanList(rem))
+		fmt.Fprintf(sbp, "/-- %s: the other conditions, in source order. -/\ndef conds%s : List String := %s\n\n", c.Pos(fd), name, leanList(conds))
 		if name == "Wrap" {
 			stored := false
 			for _, s := range rem {
@@ -391,11 +427,7 @@ func gen(c *ex.Ctx) {
 					stored = true
 				}
 			}
-			fmt.Fprintf(&sb, "/-- Does Wrap's measuring loop store the width into the slice element (so that the placing loop uses it)? -/\ndef wrapStoresWidth : Bool := %v\n\n", stored)
+			fmt.Fprintf(sbp, "/-- Does Wrap's measuring loop store the width into the slice element (so that the placing loop uses it)? -/\ndef wrapStoresWidth : Bool := %v\n\n", stored)
 		}
-	}
-	sb.WriteString("end VaxisModel.Gen.WindowFacts\n")
-	if len(c.Errs) == 0 {
-		c.Write("WindowFacts.lean", sb.String())
 	}
 }
